@@ -449,6 +449,8 @@ func runC07(c *core.Ctx) {
 	ruleWireStringIndex(c, d, "C07.index")
 	c.Doc("C07.shared-state", "decoders keep no shared map that is written with only a read lock held (a decoder that aborts the process is not total)", 1)
 	ruleSharedMapWritesExclusive(c, core.NewLockCache(), "C07.shared-state", "meta/signature", "type/value", "type/encoding", "type/basic", "type/object", "bus/net")
+	c.Doc("C18.recursion", "IDL parser: a type reference is followed only while marked as being visited and refuses to resolve while marked (a recursive struct is an error, not a fatal stack overflow) — rule shared with C18", 4)
+	ruleReferenceRecursionGuard(c, "C18.recursion")
 	c.Doc("C07.nil-map", "no map that can be nil (the zero result of a decoder for an input announcing no entries) is written", 1)
 	ruleNoNilMapWrite(c, "C07.nil-map", "bus", "type", "meta/signature")
 	c.Doc("C07.nil-on-error", "a value returned next to a decoding error is not dereferenced on the paths where the error is set (it is nil there: the use panics)", 1)
